@@ -1633,7 +1633,9 @@ class BaseLoss(object):
         dealing with estimating the initial value as well
         """
         x0 = ode_utils.check_array_type(x0)
-        self._x0 = np.copy(x0)
+        # always a float array: _unrollState writes estimated (fractional)
+        # initial values into it, an integer x0 would truncate them
+        self._x0 = np.array(x0, dtype=float)
 
     def _setLossType(self):
         """
